@@ -516,7 +516,48 @@ def check_construction(ctx, num=6):
                construct="construction order", detail=f"generator at L{cs[0].lineno}, executor at L{ex[0].lineno}")
 
 
+def check_workload_per_run(ctx, num=6):
+    """A workload object is a consumable stream (random generator state, trace cursor): "the same workload for every policy" means a workload
+    built afresh from the same parameters for every run, never one object handed to several runs.  Every `run_simulator(.., workload=W)` in
+    the package: W is absent / None / constructed in the call, or a name bound on every way to the call since the previous run (in
+    particular inside the loop that makes the calls)."""
+    P = ctx.P
+    n_sites = 0
+    for f in P.all_funcs(False):
+        calls = [c for c in own_nodes(f.node) if isinstance(c, ast.Call) and norm.call_name(c) == "run_simulator"]
+        if not calls:
+            continue
+        uses = {}
+        for c in calls:
+            w = norm.kwarg(c, "workload", 1)
+            if w is None or (isinstance(w, ast.Constant) and w.value is None) or isinstance(w, ast.Call):
+                continue
+            n_sites += 1
+            ok, d = False, f"workload={norm.U(w)}"
+            if isinstance(w, ast.Name):
+                binds = [n for n in own_nodes(f.node) if isinstance(n, ast.Name) and n.id == w.id and isinstance(n.ctx, ast.Store)]
+                # innermost loop around the call: the name must be bound inside it
+                lp = parent(c)
+                while lp is not None and lp is not f.node and not isinstance(lp, (ast.For, ast.While, ast.AsyncFor)):
+                    lp = parent(lp)
+                in_loop = lp is not None and lp is not f.node
+                if in_loop:
+                    ok = any(any(b is x for x in ast.walk(lp)) for b in binds)
+                    d += f"; the call is inside `{stmt_text(lp)}`; `{w.id}` is bound inside that loop: {ok}"
+                else:
+                    uses.setdefault(w.id, []).append(c)
+                    ok = len(uses[w.id]) == 1 or len(binds) >= len(uses[w.id])
+                    d += f"; runs using `{w.id}` in this function: {len(uses[w.id])}, bindings of it: {len(binds)}"
+                if w.id in f.params():
+                    ok = True     # the caller's object: judged at the caller's call
+            ctx.ob(num, "K3", "a workload object is handed to one run only (every run gets a workload built afresh from the same parameters)", ok, f, c,
+                   construct="run_simulator(.., workload=<fresh object>)", detail=d)
+    ctx.ob(num, "K3", "run_simulator call sites that pass a workload object were examined", True, None, None, construct="workload argument sites",
+           detail=f"{n_sites} site(s) pass a named workload object", nontrivial=False, file=SIM)
+
+
 def run(ctx):
+    check_workload_per_run(ctx, 6)
     check_set_iteration(ctx, 1)
     check_identifiers(ctx, 2)
     check_randomness(ctx, 3)
